@@ -360,8 +360,9 @@ theorem Decomposed.lawful {cs : Codec L α} {cr : Codec L R} {cv : Codec L V}
       ("disp", (cv.ser t.disp).json)] = .ok (_, _, _) from rfl]
     simp [hs.de_json, hr.de_json, hv.de_json]
 
-/-- **C20, round trip**: with primitive leaves, every serialisable type satisfies
-`de (ser v) = some v`, directly and through a format that writes newtypes transparently.
+/-- **C20, round trip**: with primitive leaves, the model's codec of every serialisable type satisfies
+`de (ser v) = some v`, directly and through a format that writes newtypes transparently.  Both `ser` and `de` are the model's
+(`Cgm/Model/Serde.lean`, transcribed from the serde derives); nothing here is tied to the derive output by Lean.
 The `Decomposed` instances listed are the ones cgmath is used with
 (`Decomposed<Vector3, Quaternion>`, `Decomposed<Vector3, Basis3>`, `Decomposed<Vector2, Basis2>`). -/
 theorem round_trip_all :
@@ -401,8 +402,10 @@ example : (Quat.codec leaf).de ((Quat.codec leaf).ser (⟨⟨1, 2, 3⟩, 4⟩ : 
 
 /-! ## §3 field structure -/
 
-/-- **C20, field names**: the components are named by their public field names, in declaration
-order; matrices name their columns `x, y, z, w`; the bases have the single field `mat`. -/
+/-- **C20, field names**: in the model's `ser`, the components are named by their public field names, in declaration
+order; matrices name their columns `x, y, z, w`; the bases have the single field `mat`.  (True by construction of the model:
+`rfl` on the field lists transcribed into `Cgm/Model/Serde.lean`; a rename made on both sides, or a `#[serde(...)]` attribute,
+would not be noticed here.) -/
 theorem field_names (c : Codec L α) (v1 : V1 α) (v2 : V2 α) (v3 : V3 α) (v4 : V4 α)
     (p1 : P1 α) (p2 : P2 α) (p3 : P3 α) (m2 : M2 α) (m3 : M3 α) (m4 : M4 α) (q : Quat α)
     (b2 : Basis2 α) (b3 : Basis3 α) :
